@@ -552,7 +552,7 @@ def scale_family(ctx, prop):
             if "stop" in o:
                 o["stop"] = 4150
         elif not big:
-            n *= (8 if ctx.thorough() else 1)
+            n *= (4 if ctx.thorough() else 1)
         per_file, inter, zig = o.pop("per_file", None), o.pop("interleave", None), o.pop("zigzag", False)
         if per_file == 1 or zig:
             n = min(n, 4000)
@@ -563,7 +563,7 @@ def scale_family(ctx, prop):
         GC.simple_layout(s, blocks, per_file=per_file, pad=o.pop("pad", 5), file_of=(lambda i: i % inter) if inter else (_zigzag if zig else None))
         s.start, s.stop, s.verify = o.pop("start", 0), o.pop("stop", None), o.pop("verify", False)
         if s.stop is not None and ctx.thorough() and not big:
-            s.start, s.stop = s.start * 8, s.stop * 8
+            s.start, s.stop = s.start * 4, s.stop * 4
         s.verbose, s.threads = o.pop("verbose", 0), o.pop("threads", None)
         if o.pop("xor", False):
             s.xorkey = GC.xor_key(r)
